@@ -442,6 +442,14 @@ fn call(ep: &str, a: &[Value]) -> R {
             Ok(format!("{a1}\u{0}{a2}"))
         }
         "remove_html_reply_fallback" => Ok(ruma_html::remove_html_reply_fallback(&s0()?)),
+        "plain_reply_fallback" => Ok(ruma_events::room::message::sanitize::remove_plain_reply_fallback(&s0()?).to_owned()),
+        "message_sanitize" => {
+            // a received m.room.message content, sanitised as a client does before display
+            let mut c: ruma_events::room::message::RoomMessageEventContent = serde_json::from_slice(&arg_bytes(&a[0])).map_err(|e| e.to_string())?;
+            let yes = arg_str(&a[1]).ok_or("utf8")? == "yes";
+            c.sanitize(ruma_html::HtmlSanitizerMode::Strict, if yes { ruma_html::RemoveReplyFallback::Yes } else { ruma_html::RemoveReplyFallback::No });
+            serde_json::to_string(&c).map_err(|e| e.to_string())
+        }
         "endpoint_request" => endpoint_req(a),
         "endpoint_response" => endpoint_resp(a),
         "auth_check" => state_res_auth(a),
@@ -568,6 +576,8 @@ pub fn run(args: &[String]) {
     let out_path = &args[2];
     let start: usize = args[3].parse().unwrap();
     let budget: u64 = args.get(4).and_then(|s| s.parse().ok()).unwrap_or(20);
+    // inputs whose call did not return in an earlier process are not called again
+    let skip: std::collections::BTreeSet<u64> = args.get(5).map(|s| s.split(',').filter_map(|x| x.parse().ok()).collect()).unwrap_or_default();
     let mut inputs: BTreeMap<u64, Value> = BTreeMap::new();
     for line in std::io::BufReader::new(std::fs::File::open(inputs_path).unwrap()).lines() {
         let line = line.unwrap();
@@ -595,7 +605,7 @@ pub fn run(args: &[String]) {
             }
         });
     }
-    let worker = std::thread::Builder::new().stack_size(8 << 20).spawn(move || {
+    let worker = std::thread::Builder::new().name("c17-calls".into()).stack_size(8 << 20).spawn(move || {
         let mut rs = Ruleset::server_default(&OwnedUserId::try_from("@me:s.co").unwrap());
         let digest = |rs: &Ruleset| fnv(&serde_json::to_string(rs).unwrap_or_default());
         {
@@ -604,6 +614,11 @@ pub fn run(args: &[String]) {
         }
         for (pos, item) in sched.iter().enumerate().skip(start) {
             let i = item[0].as_u64().unwrap();
+            if skip.contains(&i) {
+                let mut f = out.lock().unwrap();
+                let _ = writeln!(f, "{}", json!({"ev": "skipped", "pos": pos, "i": i}));
+                continue;
+            }
             let pass = item[1].as_str().unwrap_or("A");
             let inp = &inputs[&i];
             let ep = inp["ep"].as_str().unwrap_or("");
